@@ -22,7 +22,7 @@ import (
 
 func init() { Registry["C04"] = runC04 }
 
-var c04Kinds = []string{"status-400", "status-403", "status-404", "status-500", "status-503", "reset", "truncated-body", "corrupt-body", "stall", "ctx-cancel", "hook-fail"}
+var c04Kinds = []string{"status-400", "status-403", "status-404", "status-500", "status-503", "reset", "truncated-body", "corrupt-body", "stall", "ctx-cancel", "hook-fail", "hook-ctx-cancel"}
 
 type c04Fault struct {
 	Kind string
@@ -58,6 +58,8 @@ func (k c04Case) classKey() string {
 			cl = "error-status"
 		case f.Kind == "reset" || f.Kind == "stall" || f.Kind == "truncated-body":
 			cl = "transport-error"
+		case f.Kind == "hook-ctx-cancel":
+			cl = "ctx-cancel"
 		}
 		kinds[cl] = true
 	}
@@ -83,6 +85,7 @@ type c04Run struct {
 	hl      *hookLog
 	pi      peer.AddrInfo
 	failAt  map[int]bool // chain indices where the hook signals failure (phase-scoped)
+	cancelAt map[int]bool // chain indices where the hook cancels the caller's context
 	failOn  bool
 	mu      sync.Mutex
 	ctxStop context.CancelFunc
@@ -145,7 +148,7 @@ func (ru *c04Run) plan(front *Front, active *bool) {
 		f, ok := sticky[ev.Rsrc]
 		if !ok {
 			for _, cf := range ru.k.Faults {
-				if cf.Kind != "hook-fail" && cf.At == idx {
+				if cf.Kind != "hook-fail" && cf.Kind != "hook-ctx-cancel" && cf.At == idx {
 					f, ok = cf, true
 					sticky[ev.Rsrc] = cf
 				}
@@ -249,8 +252,16 @@ func runC04(c *vf.Ctx) {
 			if kind == "stall" && r.Intn(3) != 0 {
 				continue // stalls cost a client timeout each: sampled
 			}
-			if kind == "ctx-cancel" && k.Announced {
+			if (kind == "ctx-cancel" || kind == "hook-ctx-cancel") && k.Announced {
 				continue // the caller's context only governs explicit syncs
+			}
+			if kind == "hook-ctx-cancel" {
+				// the caller's context is cancelled from inside the block hook, i.e. between two segments
+				if k.Seg == 0 {
+					k.Seg = int64(1 + r.Intn(2))
+				}
+				k.Faults = append(k.Faults, c04Fault{kind, 2 + r.Intn(3)})
+				continue
 			}
 			if kind == "hook-fail" {
 				if k.Seg == 0 {
@@ -278,6 +289,14 @@ func (ru *c04Run) hook() dagsync.BlockHookFunc {
 		ru.mu.Lock()
 		fail := ru.failOn && ru.failAt[ru.env.chain.Pos(cd)]
 		ru.mu.Unlock()
+		ru.mu.Lock()
+		cancelNow := ru.failOn && ru.cancelAt[ru.env.chain.Pos(cd)] && ru.ctxStop != nil
+		stop := ru.ctxStop
+		ru.mu.Unlock()
+		if cancelNow {
+			ru.env.c.Inc("fault_hit_hook-ctx-cancel")
+			stop()
+		}
 		if fail {
 			ru.env.c.Inc("fault_hit_hook-fail")
 			ru.mu.Lock()
@@ -359,10 +378,13 @@ func (ru *c04Run) syncOnce(front *Front, head cid.Cid, withCtxCancel bool) c04Ob
 
 func c04One(c *vf.Ctx, sub string, i int, env *c04Env, k c04Case) {
 	front := env.front[k.Mount]
-	ru := &c04Run{k: k, env: env, dst: NewStore(), hl: &hookLog{}, failAt: map[int]bool{}}
+	ru := &c04Run{k: k, env: env, dst: NewStore(), hl: &hookLog{}, failAt: map[int]bool{}, cancelAt: map[int]bool{}}
 	for _, f := range k.Faults {
 		if f.Kind == "hook-fail" {
 			ru.failAt[f.At] = true
+		}
+		if f.Kind == "hook-ctx-cancel" {
+			ru.cancelAt[f.At] = true
 		}
 	}
 	opts := []dagsync.Option{dagsync.BlockHook(ru.hook()), dagsync.HttpTimeout(400 * time.Millisecond)}
@@ -429,7 +451,7 @@ func c04One(c *vf.Ctx, sub string, i int, env *c04Env, k c04Case) {
 		ru.mu.Unlock()
 		hasCancel := false
 		for _, f := range k.Faults {
-			if f.Kind == "ctx-cancel" {
+			if f.Kind == "ctx-cancel" || f.Kind == "hook-ctx-cancel" {
 				hasCancel = true
 			}
 		}
